@@ -327,6 +327,17 @@ func ruleC06LexicalOrDynamic(c *Ctx) {
 						return true
 					}
 				}
+				// the flag as a small enumeration: kind == <non-zero constant>, or kind != <zero constant>
+				if bo, isBin := g.Cond.(*ssa.BinOp); isBin && c.mentionsField(g.Cond, "anchorInfo.dynamic", 3) {
+					for _, side := range []ssa.Value{bo.X, bo.Y} {
+						if k, isK := side.(*ssa.Const); isK && k.Value != nil {
+							kv, isInt := constInt(k)
+							if isInt && ((bo.Op == token.EQL && g.Pol && kv != 0) || (bo.Op == token.NEQ && g.Pol && kv == 0) || (bo.Op == token.EQL && !g.Pol && kv == 0) || (bo.Op == token.NEQ && !g.Pol && kv != 0)) {
+								return true
+							}
+						}
+					}
+				}
 			}
 			return false
 		}
